@@ -206,13 +206,47 @@ func TestC20(t *testing.T) {
 			key := rapid.SliceOfN(rapid.Byte(), klen, klen).Draw(rt, "key")
 			keyHex := hex.EncodeToString(key)
 			w := walletFromSeed(seed)
+			// The path may already hold an older, longer or shorter file (a previous wallet, unrelated bytes): saving
+			// replaces it entirely.
+			stale := rapid.SliceOfN(rapid.Byte(), 0, 700).Draw(rt, "stale")
+			if rapid.Bool().Draw(rt, "overStale") {
+				for _, name := range []string{"wallet.sav", "wallet.pem", "wallet.pem.pub"} {
+					if e := os.WriteFile(filepath.Join(dir, name), stale, 0o644); e != nil {
+						rt.Fatalf("stale file: %v", e)
+					}
+				}
+			}
 			saved, err := c20Save(dir, &w, keyHex)
 			if err != nil {
 				rt.Fatalf("save: %v", err)
 			}
 			c := c20Case{Seed: hex.EncodeToString(seed), Key: keyHex, ReadKey: keyHex}
 			f := append([]byte(nil), saved...)
-			switch rapid.IntRange(0, 5).Draw(rt, "damage") {
+			damage := rapid.IntRange(0, 6).Draw(rt, "damage")
+			if damage == 6 {
+				// PEM round trip of a random wallet, possibly over stale files
+				pp := filepath.Join(dir, "wallet.pem")
+				h := fileoperations.New(fileoperations.Config{WalletPemPath: pp}, aeswrapper.New())
+				st.eval(1)
+				st.nontrivial(fp64(c.Seed, "pem", hex.EncodeToString(stale)))
+				var w2 wallet.Wallet
+				var pn any
+				func() {
+					defer func() { pn = recover() }()
+					if err = h.SaveToPem(&w); err == nil {
+						w2, err = h.ReadFromPem()
+					}
+				}()
+				if pn != nil || err != nil || !bytes.Equal(w2.Private, w.Private) || !bytes.Equal(w2.Public, w.Public) || w2.Address() != w.Address() {
+					c.Kind = "pem"
+					if st.report("pem-roundtrip", fmt.Sprintf("PEM round trip of a random wallet: err=%v panic=%v", err, pn), c) {
+						rt.Fatalf("C20 violated: PEM round trip err=%v panic=%v", err, pn)
+					}
+				}
+				st.sample(map[string]any{"kind": "pem", "stale_len": len(stale)})
+				return
+			}
+			switch damage {
 			case 0:
 				c.Kind = "intact"
 			case 1:
